@@ -234,4 +234,20 @@ def selftest():
         m = bytes(rnd.randrange(256) for _ in range(2 * B + 7))
         H1 = _compress(alg, initial(alg), m[:B])
         assert digest(alg, m) == digest(alg, m[B:], None, H1, 8 * B)
-    return "MD5/SHA-1/SHA-2/SHA-512-t == hashlib on %d inputs, RFC 1320 MD4 suite, SHA-0(abc), NIST bit-oriented examples, resumption" % n
+    note = "; openssl md4 cross-check skipped"
+    import shutil, subprocess
+    exe = shutil.which("openssl")
+    if exe:
+        try:
+            ok = 0
+            for ln in (0, 1, 55, 56, 64, 119, 120, 300):
+                m = bytes(rnd.randrange(256) for _ in range(ln))
+                out = subprocess.run([exe, "dgst", "-md4", "-binary", "-provider", "legacy", "-provider", "default"], input=m, capture_output=True, timeout=20)
+                if out.returncode == 0 and len(out.stdout) == 16:
+                    assert out.stdout == digest("md4", m), ln
+                    ok += 1
+            if ok:
+                note = "; MD4 == openssl CLI on %d inputs" % ok
+        except (OSError, subprocess.TimeoutExpired):
+            pass
+    return ("MD5/SHA-1/SHA-2/SHA-512-t == hashlib on %d inputs, RFC 1320 MD4 suite, SHA-0(abc), NIST bit-oriented examples, resumption" % n) + note
